@@ -176,4 +176,70 @@ def valuesets(shard=0, nshards=1, w=3, budget_s=60, known_labels=()):
 
 
 def replay(task, failure):
-    return {"reproduced": True, "text": failure.get("detail", "")}
+    """Native replay on the real classes: the witness is re-built and the failed clause re-evaluated."""
+    import ast as _ast
+    from claripy.backends.backend_vsa import StridedInterval as SI, DiscreteStridedIntervalSet as D, ValueSet as VS
+    import claripy.backends.backend_vsa.strided_interval as sim
+    wit = failure.get("witness") or {}
+    lab = failure.get("label", "")
+    w = (task.get("kwargs") or {}).get("w", 3)
+    M = 1 << w
+    mk = lambda iv: SI(bits=w, stride=iv[2], lower_bound=iv[0], upper_bound=iv[1])
+    tup = lambda iv: tuple(iv)
+    try:
+        if lab.startswith("dsis/"):
+            i1, i2 = map(tup, wit["d"])
+            dm = _mem(i1, w) | _mem(i2, w)
+            with sim._allow_dsis(True):
+                d = D(bits=w, si_set={mk(i1), mk(i2)})
+                if "op" in wit:
+                    i3 = tup(wit["o"])
+                    try:
+                        r = getattr(d, wit["op"])(mk(i3))
+                    except Exception as ex:  # noqa
+                        return {"reproduced": "raises" in lab, "text": f"DSIS{{{i1},{i2}}}.{wit['op']}({i3}) raised {type(ex).__name__}: {ex}"}
+                    rm = _si_members(r, w)
+                    want = {OPS[wit["op"]](x, y, M) for x in dm for y in _mem(i3, w)}
+                    bad = rm is not None and not want <= rm
+                    return {"reproduced": bool(bad) and "not-contained" in lab,
+                            "text": f"DSIS{{{i1},{i2}}}.{wit['op']}({i3}) = {r}: members {sorted(rm) if rm is not None else None}, pointwise results {sorted(want)}"}
+                ev = set(d.eval(64))
+                bad = (not ev <= dm or (len(ev) < len(dm) and len(ev) < 64)) if lab == "dsis/eval" else \
+                      (d.cardinality < len(dm)) if lab == "dsis/cardinality-under" else None
+                if bad is None:
+                    return {"reproduced": False, "text": "clause " + lab + " is re-checked by re-running the task only; detail: " + failure.get("detail", "")}
+                return {"reproduced": bool(bad), "text": f"DSIS{{{i1},{i2}}}: eval {sorted(ev)}, cardinality {d.cardinality}, members {sorted(dm)}"}
+        if lab.startswith("vs/"):
+            def vs(assign):
+                v = VS(bits=w)
+                for reg, iv in assign.items():
+                    v._set_si(reg, 0, mk(iv))
+                return v
+            regs = lambda v: {r: _si_members(x, w) for r, x in v.regions.items()}
+            if "vs" in wit:
+                a1 = _ast.literal_eval(wit["vs"])
+                o = tup(wit["o"])
+                op = lab[lab.index("[") + 1:-1]
+                try:
+                    r = getattr(vs(a1), op)(mk(o))
+                except Exception as ex:  # noqa
+                    return {"reproduced": "raises" in lab, "text": f"VS{a1}.{op}({o}) raised {type(ex).__name__}: {ex}"}
+                if not isinstance(r, VS):
+                    return {"reproduced": False, "text": f"VS{a1}.{op}({o}) = {r} (not a value set)"}
+                rr = regs(r)
+                bad = any(reg not in rr or not {OPS[op](x, y, M) for x in _mem(iv, w) for y in _mem(o, w)} <= rr[reg] for reg, iv in a1.items())
+                return {"reproduced": bool(bad) and "not-contained" in lab, "text": f"VS{a1}.{op}({o}) = {r}"}
+            a1, a2 = _ast.literal_eval(wit["a"]), _ast.literal_eval(wit["b"])
+            try:
+                u, it = vs(a1).union(vs(a2)), vs(a1).intersection(vs(a2))
+            except Exception as ex:  # noqa
+                return {"reproduced": "raises" in lab, "text": f"VS{a1} union/intersection VS{a2} raised {type(ex).__name__}: {ex}"}
+            ru, ri = regs(u), (regs(it) if isinstance(it, VS) else {})
+            m = lambda a, reg: _mem(a[reg], w) if reg in a else set()
+            bad_u = any(not (m(a1, reg) | m(a2, reg)) <= ru.get(reg, set()) for reg in set(a1) | set(a2))
+            bad_i = any(not (m(a1, reg) & m(a2, reg)) <= ri.get(reg, set()) for reg in set(a1) & set(a2))
+            return {"reproduced": bool(bad_u if lab == "vs/union" else bad_i if lab == "vs/intersection" else False),
+                    "text": f"VS{a1} , VS{a2}: union {u}, intersection {it}"}
+    except Exception as ex:  # noqa
+        return {"reproduced": False, "text": f"replay could not re-build the witness: {type(ex).__name__}: {ex}"}
+    return {"reproduced": False, "text": "no native reproducer for clause " + lab}
